@@ -59,7 +59,7 @@ class LeanAudit:
         src = LEAN / "MdpaxV" / "Props" / f"{self.prop}.lean"
         text = src.read_text()
         self.obligations = re.findall(r"^theorem\s+(\S+)", text, flags=re.M)
-        cmd = ["lake", "build", mod]
+        cmd = ["lake", "build", "MdpaxV", mod]      # the library root = every model module the driver imports
         self.cmds.append("cd lean && " + " ".join(cmd))
         p = subprocess.run(cmd, cwd=LEAN, capture_output=True, text=True)
         self.log = p.stdout + p.stderr
